@@ -215,7 +215,11 @@ class InterestPacketValue(TlvModel):
         ret = super().parse(wire, markers, ignore_critical)
         digest_cover_start = cls._digest_cover_start.get_arg(markers)
         digest_cover_end = cls._digest_cover_end.get_arg(markers)
-        digest_cover_part = [memoryview(wire)[digest_cover_start:digest_cover_end]]
+        if ret.application_parameters is not None:
+            digest_cover_part = [memoryview(wire)[digest_cover_start:digest_cover_end]]
+        else:
+            # The digest covers ApplicationParameters to the end: without that element there is nothing to cover
+            digest_cover_part = []
         cls._digest_cover_part.set_arg(markers, digest_cover_part)
         return ret
 
